@@ -24,10 +24,11 @@ import common as c
 import c01_gen as g
 import c01_run as r
 import evalstream as es
+import textstream as ts
 
 PID = "C01"
 MANIFEST = {
-    "text": "26 Coq theorems over the evaluator model (explicit Panic outcome for every partial Rust operation on a "
+    "text": "26 + 5 Coq theorems over the evaluator model (explicit Panic outcome for every partial Rust operation on a "
             "modelled path): evaluation at any call-depth budget from any configuration whose innermost frame is Owned "
             "never returns Panic and keeps that invariant — for every operator/built-in implementation that does not "
             "panic itself; hypotheses discharged for the transcribed operators (26 ops x 3 broadcasting arms: no "
@@ -51,7 +52,14 @@ MANIFEST = {
             "binary over grammar-generated (nesting <= 64), corpus-mutated, raw UTF-8, every built-in x boundary-pool "
             "tuples (arity -1..+2), JSON inputs incl. __blots_function objects, unit identifiers; crashes classified by "
             "(stage, file, message class); 7 crash/hang classes found on the original tree, all fixed in /repo now and "
-            "kept as regression inputs; 1 open (time_now with the clock before the epoch)",
+            "kept as regression inputs; 1 open (time_now with the clock before the epoch).  TEXT LAYER (coq/TextRun.v: "
+            "program text -> PEG pairs -> Pratt items -> AST -> statement loop -> outputs as ONE Gallina function, tied to the "
+            "real parse+evaluate+outputs and to the real binary by the TEXT-EVAL stream, which hands the model only the "
+            "bytes): C01_text_parse_total — the parser stage of the model never runs out of fuel, for EVERY text (from "
+            "C10_peg_total: machine-checked termination of the PEG interpreter on the regenerated grammar with fuel "
+            "128 + 48*bytes, via a termination certificate recomputed and re-checked on every build), so acceptance is a "
+            "total function of the text; C01_text_run_fuel_independent; C01_text_run_never_unmodelled (up to the Pratt "
+            "model's own fuel, counted 0 by the stream); C01_text_run_is_program_run; C01_text_statement_spans_inside",
     "note": "trusted: Coq kernel + vm_compute; transcription of evaluate_ast / FunctionDef::call / evaluate_binary_op_ast "
             "and of every built-in arm (validated by the EVAL correspondence in both overflow semantics and by the ALL "
             "correspondence: model with oracle tables dumped by the harness vs implementation, plus the real binary's "
@@ -548,6 +556,7 @@ def main(argv):
         tp = time.time()
         streams["ALL"] = es.run_all_stream(h, c.Rng(seed + 0x0A11), quick, res, cli=cli_r, tag="c01all")
         c.log("ALL correspondence %.1fs" % (time.time() - tp))
+        streams["TEXT-EVAL"] = ts.run_text_stream(h, c.Rng(seed + 0x7E87), quick, res, cli=cli_r, tag="c01text")
     except c.BrokenTie as e:
         res.tie_broken(e.what, e.detail)
 
